@@ -184,6 +184,8 @@ def _install(model, subscribe, published):
             "p": SimPersistent("per", "persistent", sim),
         }
         m.stats["c"].listen_to(m.prod["c"])
+        m.stats["c"].listen_to(m.prod["c"], _custom_type())       # the counter listens to TWO event types
+        m.obs_c_n = 0
         m.stats["t"].listen_to(m.prod["t"], _custom_type())       # custom event type through listen_to
         m.stats["w"].listen_to(m.prod["w"])
         m.stats["p"].listen_to(m.prod["p"])
@@ -200,7 +202,8 @@ def _install(model, subscribe, published):
         sim = m.simulator
         k = a[0]
         if k == "obs_c":
-            m.prod["c"].fire(StatEvents.DATA_EVENT, a[1])
+            m.obs_c_n += 1
+            m.prod["c"].fire(StatEvents.DATA_EVENT if m.obs_c_n % 2 else _custom_type(), a[1])
         elif k == "obs_t":
             m.prod["t"].fire(_custom_type(), float.fromhex(a[1]))
         elif k == "obs_w":
